@@ -202,7 +202,7 @@ type caseStats struct {
 	nontext                                                                      map[string]int
 	maxRuns                                                                      int
 	setKinds                                                                     map[string]bool
-	splitAcrossRuns, splitAcrossFormats, combined                                int
+	splitAcrossRuns, splitAcrossFormats, braceAdjacent                           int
 	loopSplit                                                                    bool
 	valueClasses                                                                 map[string]bool
 }
@@ -230,6 +230,11 @@ func paraSplit(p *Para, cs *caseStats) {
 	spans = append(spans, scanVars(text)...)
 	spans = append(spans, scanDirective(text, "each")...)
 	spans = append(spans, scanDirective(text, "image")...)
+	for _, sp := range scanVars(text) {
+		if (sp.s > 0 && text[sp.s-1] == '{') || (sp.e < len(text) && text[sp.e] == '}') {
+			cs.braceAdjacent++
+		}
+	}
 	for _, sp := range spans {
 		runs := map[int]bool{}
 		fm := map[string]bool{}
@@ -361,6 +366,7 @@ func describe(res *kit.Result, c *Case, j *judge) {
 	lab(cs.splitAcrossRuns > 0, "ph:split-across-runs")
 	lab(cs.splitAcrossFormats > 0, "ph:split-across-formats")
 	lab(cs.loopSplit, "ph:split-in-loop-row")
+	lab(cs.braceAdjacent > 0, "ph:next-to-literal-brace")
 	hasList := false
 	for _, b := range c.Blocks {
 		if b.P != nil && b.P.List {
@@ -405,11 +411,6 @@ func describe(res *kit.Result, c *Case, j *judge) {
 		lab(j.nImgWith > 0, "image:with-data")
 		lab(j.nImgWithout > 0, "image:without-data")
 		lab(j.ambiguous > 0, "oracle:ambiguous-paragraph-skipped")
-		// placeholders found by scanning vs. emitted by the generator: literal tokens that combined into a placeholder
-		emitted := 0
-		for _, n := range append(append(append([]string{}, varNames...), hfNames...), fieldNames...) {
-			emitted += countEmitted(c, "{{"+n+"}}")
-		}
 		res.Count("placeholders_seen", j.nPlaceholders)
 		res.Count("placeholders_supplied", j.nSupplied)
 		res.Count("placeholders_unsupplied", j.nUnsupplied)
@@ -423,33 +424,6 @@ func describe(res *kit.Result, c *Case, j *judge) {
 	}
 	sort.Strings(keys)
 	res.Shape = sk.String() + "#" + strings.Join(dv, "") + "#" + strings.Join(keys, "") + fmt.Sprintf("#e%d", c.Entry)
-}
-
-func countEmitted(c *Case, tok string) int {
-	n := 0
-	var walkT func(t *Table)
-	cnt := func(p *Para) { n += strings.Count(paraText(p), tok) }
-	walkT = func(t *Table) {
-		for r := range t.Cells {
-			for k := range t.Cells[r] {
-				for i := range t.Cells[r][k].Paras {
-					cnt(&t.Cells[r][k].Paras[i])
-				}
-				if t.Cells[r][k].Nested != nil {
-					walkT(t.Cells[r][k].Nested)
-				}
-			}
-		}
-	}
-	for _, b := range c.Blocks {
-		if b.P != nil {
-			cnt(b.P)
-		}
-		if b.T != nil {
-			walkT(b.T)
-		}
-	}
-	return n
 }
 
 func TestC18(t *testing.T) {
